@@ -59,7 +59,7 @@ def regenerate(status):
 
 def coq_files():
     fs = []
-    for d in ('Model', 'Gen', 'Theory', 'Props', 'Extract'):
+    for d in ('Model', 'Gen', 'Theory', 'Props', 'Extract', 'Float'):
         fs += sorted(glob.glob(os.path.join(COQ, d, '*.v')))
     return [os.path.relpath(f, COQ) for f in fs]
 
@@ -121,7 +121,7 @@ def ensure(prop_targets, release=False, bins=False):
 
 if __name__ == '__main__':
     # setup: build everything once
-    targets = [f[:-2] + '.vo' for f in coq_files() if f.startswith('Props/')]
+    targets = [f[:-2] + '.vo' for f in coq_files() if f.startswith('Props/') or f.startswith('Float/')]
     st = ensure(targets, release=True, bins=True)
     for k, v in st.items():
         if isinstance(v, dict):
